@@ -1,5 +1,5 @@
 #!/usr/bin/env python3
-"""seed2_process.py <Cxx> [letters]  - round 2: confirm each sub-agent change found under /tmp/seed2_out_<Cxx>/<letter>/ in a scratch
+"""seed2_process.py <Cxx> [letters]  - rounds 2 and 3 (SEED_ROUND=3: reads /tmp/seed3_out_<Cxx>/<a|b>/, keeps as <Cxx>-<f|g>): confirm each sub-agent change found under /tmp/seed2_out_<Cxx>/<letter>/ in a scratch
 worktree of the current /repo HEAD (patch applies, 118 repo tests pass with it, demo fails with it / passes without it), run the
 owning quick check against the patched scratch tree (DFOLS_VERIF_REPO; /repo untouched) and, if the change is valid, keep it as
 seeded/<Cxx>-<c|d|e>/ with meta.json. Prints one line per change."""
@@ -7,7 +7,13 @@ import json, os, subprocess, sys, shutil, time
 
 VERIF = os.path.dirname(os.path.dirname(os.path.abspath(__file__)))
 PY = "/venv/bin/python"
-MAP = {"a": "c", "b": "d", "c": "e"}
+ROUND = int(os.environ.get("SEED_ROUND", "2"))
+MAP = {"a": "c", "b": "d", "c": "e"} if ROUND == 2 else {"a": "f", "b": "g"}
+ORIGIN = {2: "independent sub-agent (round 2) given only the property text and a scratch worktree; asked for three changes on "
+             "different mechanisms, at least one needing two cooperating sites or a multi-step history",
+          3: "independent sub-agent (round 3) given only the property text and a scratch worktree; asked for (a) a plausible 'improvement' "
+             "(optimisation, caching, reordering, view instead of copy, simplified guard) that is wrong only in a corner and (b) a defect on "
+             "an error / exit / restart / recovery path; the most obvious site for the property was excluded"}[ROUND]
 
 
 def sh(cmd):
@@ -16,8 +22,8 @@ def sh(cmd):
 
 def main():
     prop = sys.argv[1]
-    letters = sys.argv[2:] or ["a", "b", "c"]
-    WT = "/tmp/seed2chk_%s" % prop
+    letters = sys.argv[2:] or sorted(MAP)
+    WT = "/tmp/seed%dchk_%s" % (ROUND, prop)
     head = sh("git -C /repo rev-parse --short HEAD").stdout.strip()
     sh("git -C /repo worktree remove --force %s" % WT)
     if sh("git -C /repo worktree add --detach %s HEAD" % WT).returncode != 0:
@@ -25,7 +31,7 @@ def main():
         return 1
     try:
         for L in letters:
-            src = "/tmp/seed2_out_%s/%s" % (prop, L)
+            src = "/tmp/seed%d_out_%s/%s" % (ROUND, prop, L)
             sid = "%s-%s" % (prop, MAP[L])
             if not os.path.exists(os.path.join(src, "patch.diff")):
                 print(sid, "no patch.diff")
@@ -72,9 +78,7 @@ def main():
                     if os.path.exists(os.path.join(src, f)):
                         shutil.copy(os.path.join(src, f), os.path.join(dst, f))
                 notes = open(os.path.join(src, "notes.md")).read() if os.path.exists(os.path.join(src, "notes.md")) else ""
-                meta = dict(id=sid, round=2, breaks_property=prop,
-                            origin="independent sub-agent (round 2) given only the property text and a scratch worktree; asked for three changes on "
-                                   "different mechanisms, at least one needing two cooperating sites or a multi-step history",
+                meta = dict(id=sid, round=ROUND, breaks_property=prop, origin=ORIGIN,
                             needs_to_manifest="see notes.md (written by the sub-agent): " + " ".join(notes.split())[:600],
                             repo_head_when_confirmed=head,
                             confirmed=dict(patch_applies=True, rebased_3way=rebased, repo_tests_with_patch=tests, demo_without_patch="exit %s" % base,
